@@ -106,4 +106,71 @@ def sparseDecompress (data : Bytes) (expected : Nat) : Option Bytes :=
     if size > expected then none else some (sparseGo (rest.length + 1) rest size [])
   | _ => none
 
+
+/-! ### sparse compressor (sparse.rs:compress), as the token sequence it emits -/
+
+/-- what the compressor emits: a literal chunk or a zero run -/
+inductive Tok
+  | lit (bs : Bytes)
+  | zeros (n : Nat)
+
+def Tok.enc : Tok → Bytes
+  | .lit bs => UInt8.ofNat (128 + (bs.length - 1)) :: bs
+  | .zeros n => [UInt8.ofNat (n - 3)]
+def Tok.out : Tok → Bytes
+  | .lit bs => bs
+  | .zeros n => List.replicate n 0
+
+/-- the inner scan of `compress`: walks from the current position, counting zeros; stops at the end of the data or at
+    a non-zero byte that follows at least three zeros. `idx` is the position, `last` one past the last byte that
+    goes into the literal chunk, `z` the zeros seen since. Returns (literal length, zero count). -/
+def scanRun : Bytes → Nat → Nat → Nat → Nat × Nat
+  | [], _, last, z => (last, z)
+  | b :: bs, idx, last, z =>
+    if b = 0 then scanRun bs (idx + 1) last (z + 1)
+    else if z ≥ 3 then (last, z) else scanRun bs (idx + 1) (idx + 1) 0
+
+/-- flush of the literal bytes: 0x80-byte chunks while more than 0x81 remain, the one-byte chunk StormLib emits at
+    exactly 0x81 ("BUGBUG" in the source), then the rest -/
+def litToks : Nat → Bytes → List Tok
+  | 0, _ => []
+  | f+1, seg =>
+    if seg.length > 0x81 then .lit (seg.take 0x80) :: litToks f (seg.drop 0x80)
+    else if seg.length > 0x80 then [.lit (seg.take 1), .lit (seg.drop 1)]
+    else if seg.length ≥ 1 then [.lit seg] else []
+
+/-- flush of the zero run: 0x82-zero markers while more than 0x85 remain, three zeros if more than 0x82 remain,
+    then the rest (only if at least three) -/
+def zeroToks : Nat → Nat → List Tok
+  | 0, _ => []
+  | f+1, z =>
+    if z > 0x85 then .zeros 0x82 :: zeroToks f (z - 0x82)
+    else if z > 0x82 then [.zeros 3, .zeros (z - 3)]
+    else if z ≥ 3 then [.zeros z] else []
+
+/-- the main loop (`while pb_in_buffer < end - 3`): tokens emitted and the unconsumed tail -/
+def mainToks : Nat → Bytes → List Tok × Bytes
+  | 0, rest => ([], rest)
+  | f+1, rest =>
+    if rest.length > 3 then
+      let r := scanRun rest 0 0 0
+      let adv := r.1 + (if r.2 ≥ 3 then r.2 else 0)
+      let m := mainToks f (rest.drop adv)
+      (litToks (r.1 + 1) (rest.take r.1) ++ zeroToks (r.2 + 1) r.2 ++ m.1, m.2)
+    else ([], rest)
+
+/-- "flush last three bytes": one literal chunk if any byte is non-zero, else the 0x82-zeros marker -/
+def finalBytes (rest : Bytes) : Bytes :=
+  if rest.isEmpty then [] else
+  if rest.any (fun b => b ≠ 0) then
+    (if rest.length ≤ 0x80 then UInt8.ofNat (0x80 + (rest.length - 1)) else 0xFF) :: rest
+  else [0x7F]
+
+def be32 (n : Nat) : Bytes :=
+  [UInt8.ofNat (n / 16777216), UInt8.ofNat (n / 65536 % 256), UInt8.ofNat (n / 256 % 256), UInt8.ofNat (n % 256)]
+
+def sparseCompress (d : Bytes) : Bytes :=
+  let m := mainToks (d.length + 1) d
+  be32 d.length ++ m.1.flatMap Tok.enc ++ finalBytes m.2
+
 end Wv.Codec
